@@ -27,7 +27,7 @@ theorem all_append {P : Store → Prop} {sys : Sys} (hall : ∀ s ∈ sys, P s) 
   · simp at h'; exact h' ▸ hr
 
 /-- **one step preserves the invariant on every live tree** -/
-theorem inv_step {dt : Data} {sys sys' : Sys} {op : Op} (hall : ∀ s ∈ sys, Inv0 s) (hleg : Legal sys op)
+theorem inv0_step {dt : Data} {sys sys' : Sys} {op : Op} (hall : ∀ s ∈ sys, Inv0 s) (hleg : Legal sys op)
     (hstep : step dt sys op = some sys') : ∀ s ∈ sys', Inv0 s := by
   cases op with
   | create h ch d =>
@@ -102,13 +102,13 @@ def LegalRun (dt : Data) : Sys → List Op → Prop
   | _, [] => True
   | sys, op :: ops => Legal sys op ∧ ∀ sys', step dt sys op = some sys' → LegalRun dt sys' ops
 
-theorem inv_run {dt : Data} {ops : List Op} {sys sys' : Sys} (hall : ∀ s ∈ sys, Inv0 s)
+theorem inv0_run {dt : Data} {ops : List Op} {sys sys' : Sys} (hall : ∀ s ∈ sys, Inv0 s)
     (hleg : LegalRun dt sys ops) (hrun : run dt sys ops = some sys') : ∀ s ∈ sys', Inv0 s := by
   induction ops generalizing sys with
   | nil => simp only [run, List.foldlM_nil, Option.pure_def, Option.some.injEq] at hrun; exact hrun ▸ hall
   | cons op ops ih =>
     simp only [run, List.foldlM_cons, Option.bind_eq_bind, Option.bind_eq_some_iff] at hrun
     obtain ⟨sys1, h1, h2⟩ := hrun
-    exact ih (inv_step hall hleg.1 h1) (hleg.2 sys1 h1) h2
+    exact ih (inv0_step hall hleg.1 h1) (hleg.2 sys1 h1) h2
 
 end PhyModel.Store
